@@ -233,15 +233,28 @@ mod __verif {
         kani::cover!(true);
     }
 
-    // @obligation name=e3b_bt_run_loop_undo_single props=C01:t,C02:t,C05:t fn=classicalbacktrack::MatchAttempter::run_loop,classicalbacktrack::MatchAttempter::try_backtrack,classicalbacktrack::MatchAttempter::prepare_to_enter_loop kind=complete domain="every iters<usize::MAX, min<=max, greedy, entry/pos in a 2-byte haystack such that ES allows exactly one arm or none" min_checks=300 w=5 timeout=3000
-    // Undo discipline of run_loop when at most one arm is viable: replaying its records (real try_backtrack) finds no
-    // alternative and leaves the loop data exactly as before run_loop.
+    // @obligation name=e3b_bt_run_loop_undo_fail props=C01:t,C02:t,C05:t fn=classicalbacktrack::MatchAttempter::run_loop,classicalbacktrack::MatchAttempter::try_backtrack,classicalbacktrack::MatchAttempter::prepare_to_enter_loop kind=complete domain="every iters<usize::MAX, min<=max, greedy, entry/pos in a 2-byte haystack for which ES prescribes this decision" min_checks=300 w=4 timeout=2400
+    // Undo discipline of run_loop when no arm is viable (or an empty iteration past min): nothing is pushed and nothing changes.
     #[kani::proof]
     #[kani::unwind(4)]
-    fn e3b_bt_run_loop_undo_single() {
-        let w: u8 = kani::any();
-        kani::assume(w < 3);
-        e3b_body(match w { 0 => LoopStep::Fail, 1 => LoopStep::ExitOnly, _ => LoopStep::EnterOnly });
+    fn e3b_bt_run_loop_undo_fail() {
+        e3b_body(LoopStep::Fail);
+    }
+
+    // @obligation name=e3b_bt_run_loop_undo_exit_only props=C01:t,C02:t,C05:t fn=classicalbacktrack::MatchAttempter::run_loop,classicalbacktrack::MatchAttempter::try_backtrack,classicalbacktrack::MatchAttempter::prepare_to_enter_loop kind=complete domain="every iters<usize::MAX, min<=max, greedy, entry/pos in a 2-byte haystack for which ES prescribes this decision" min_checks=300 w=4 timeout=2400
+    // Undo discipline of run_loop when only the exit arm is viable: nothing is pushed, the loop data is unchanged.
+    #[kani::proof]
+    #[kani::unwind(4)]
+    fn e3b_bt_run_loop_undo_exit_only() {
+        e3b_body(LoopStep::ExitOnly);
+    }
+
+    // @obligation name=e3b_bt_run_loop_undo_enter_only props=C01:t,C02:t,C05:t fn=classicalbacktrack::MatchAttempter::run_loop,classicalbacktrack::MatchAttempter::try_backtrack,classicalbacktrack::MatchAttempter::prepare_to_enter_loop kind=complete domain="every iters<usize::MAX, min<=max, greedy, entry/pos in a 2-byte haystack for which ES prescribes this decision" min_checks=300 w=4 timeout=2400
+    // Undo discipline of run_loop when only entering is viable: one undo record; replaying it restores the loop data and finds no alternative.
+    #[kani::proof]
+    #[kani::unwind(4)]
+    fn e3b_bt_run_loop_undo_enter_only() {
+        e3b_body(LoopStep::EnterOnly);
     }
 
     // @obligation name=e3b_bt_run_loop_undo_greedy props=C01,C02,C05 fn=classicalbacktrack::MatchAttempter::run_loop,classicalbacktrack::MatchAttempter::try_backtrack kind=complete domain="every iters, min<=iters<max, greedy, entry/pos in a 2-byte haystack" min_checks=300 w=3 timeout=1200
@@ -760,7 +773,7 @@ mod __verif {
             1 => Insn::CharSet(set),
             2 => Insn::Bracket(0),
             3 => Insn::AsciiBracket(crate::bytesearch::AsciiBitmap(kani::any())),
-            4 => if flag { Insn::MatchAny } else { Insn::MatchAnyExceptLineTerminator },
+            4 => Insn::MatchAnyExceptLineTerminator,
             5 => Insn::WordBoundary { invert: flag },
             6 => Insn::StartOfLine { multiline: flag },
             _ => Insn::EndOfLine { multiline: flag },
